@@ -120,6 +120,16 @@ def respond (line : String) : String :=
        | .ok (v, r) => s!"ok {showValue v} {r.length}"
        | .error e => s!"err {e}")
     | _, _, _, _, _, _, _ => "bad-request"
+  | [.atom "once", .list ops] =>
+    let parsed := ops.filterMap (fun (e : Sexp) => match e with
+      | .list [.atom "g", x] => (atomInt? x).map OnceOp.getOrInit
+      | .list [.atom "s", x] => (atomInt? x).map OnceOp.set
+      | _ => none)
+    let (_, outs) := OnceCell.run ({ v := none } : OnceCell Int) parsed
+    String.intercalate " " (outs.map (fun o => match o with
+      | .value x => s!"v{x}"
+      | .setOk => "ok"
+      | .setErr x => s!"e{x}"))
   | [.atom "wrcheck", bsz, .list fmeta, marker, .list ops, implFile, implResS] =>
     let implRes : List Sexp := match implResS with | .list l => l | _ => []
     match atomNat? bsz, atomBytes? marker, atomBytes? implFile with
